@@ -14,6 +14,7 @@ mod util;
 mod c09;
 mod circuits;
 mod c05;
+mod c10;
 mod c12;
 mod recxof;
 mod prio3rec;
@@ -40,6 +41,8 @@ fn main() {
         ("c20", "replay") => c20::replay(stdin_lines()),
         ("c13", "replay") => c13::replay(rest, stdin_lines()),
         ("prio3", "record") => prio3rec::record(rest, stdin_lines()),
+        ("c10", "replay") => c10::replay(stdin_lines()),
+        ("c10", "big") => c10::big_verdicts(stdin_lines()),
         ("c12", "replay") => c12::replay(rest[0].parse().unwrap(), stdin_lines()),
         (p, m) => {
             eprintln!("unknown property/mode {p} {m}");
